@@ -13,7 +13,9 @@ fn build(its: &[Src]) -> Vec<Box<dyn Iterator<Item = DltMessage>>> {
                 .iter()
                 .enumerate()
                 .map(|(p, (rt, idx))| {
-                    let mut m = dltgen::plain_msg(*idx, (s % 100) as u8, *rt, p as u32);
+                    // ECU ids deliberately collide between sources (s % 2): messages of different sources may agree in
+                    // every header field the merge could key on; source and position are carried in other fields
+                    let mut m = dltgen::plain_msg(*idx, (s % 2) as u8, *rt, p as u32);
                     m.lifecycle = s as u32; // tag: source
                     m
                 })
